@@ -266,6 +266,9 @@ def oneshot(rng, T, roots, fail=(), gated=True, tag='os', cap=None, hang_s=None,
                 left = run.leftover()
             if left:
                 bad('C10', 'processes left behind after exit: %s' % left)
+                if any(T.get(t, {}).get('kind') == 'service' for t, _, _ in left):
+                    bad('C11', 'a service that was only a dependency is still running after zinoma exited (status %s): %s'
+                        % (run.exit_code, left))
         obs = {'outcome': outcome, 'exit_code': run.exit_code, 'trace': tr, 'roots': list(roots), 'fail': {t: fail[t] for t in sorted(fail)},
                'targets': T, 'gated': gated, 'stderr_tail': err[-600:], 'keepalive_expected': keepalive,
                'exit_latency_after_signal': (run.exit_time - t_sig) if (t_sig and run.exit_time) else None,
